@@ -206,7 +206,13 @@ class C09(XsProp):
                         want = None
                 elif len(fv) == 1:
                     a = fv[0]
-                    if w == 'neg': want = ('ok', [rb(-a)])
+                    if w == 'round' and not math.isinf(a):
+                        # nearest integer, halves away from zero, computed exactly; the sign is kept
+                        from fractions import Fraction
+                        q = Fraction(abs(a)) + Fraction(1, 2)
+                        r = float(q.numerator // q.denominator)
+                        want = ('ok', [rb(math.copysign(r, a))])
+                    elif w == 'neg': want = ('ok', [rb(-a)])
                     elif w == 'abs': want = ('ok', [rb(abs(a))])
                     elif w == 'zero?': want = ('ok', ['T' if a == 0.0 else 'F'])
                     elif w == 'positive?': want = ('ok', ['T' if a > 0.0 else 'F'])
